@@ -1,6 +1,6 @@
 (* C06 with streamed blocks: a block written as header + data pieces counts as one item, like SCPI_ResultArbitraryBlock *)
 From Coq Require Import Bool List NArith ZArith Lia.
-From M Require LexModel MatchModel FmtModel.
+From M Require LexModel MatchModel FmtModel BufModel Generated.
 From M Require Import ParserModel Framing2.
 Import ListNotations.
 Local Open Scope Z_scope.
@@ -66,12 +66,96 @@ Proof.
   - rewrite D5. cbn [cmds upd_out c2]. pose proof (C_write (delimiter c) (block_header n)) as K1. pose proof (C_delimiter c) as K2. unfold C in *. fold c1 in K1. congruence.
 Qed.
 
+(* ---------- array results: ASCII = one item per element, binary = one block, whichever way it is written ---------- *)
+Definition host := arr_host.
+Definition swapped := arr_swapped.
+Definition payload (size fmt:Z) (vals:list Z) : bytes :=
+  if fmt =? Generated.gen_native_format then flat_map (host size) vals else flat_map (fun v => host size (swapped size v)) vals.
+Definition arr_items (size fmt:Z) (vals:list Z) : list bytes :=
+  if fmt =? 0 then map (fun v => int_body (if size =? 8 then 64 else 32) v 10 false) vals
+  else [block_header (Z.of_nat (length vals) * size) ++ payload size fmt vals].
+Definition size_ok (size:Z) : Prop := size = 1 \/ size = 2 \/ size = 4 \/ size = 8.
+
+Lemma le_bytes_length n : forall v, length (BufModel.le_bytes n v) = n.
+Proof. induction n as [|n IH]; intro v; [reflexivity|]. cbn [BufModel.le_bytes length]. now rewrite IH. Qed.
+Lemma host_length size v : 0 <= size -> Z.of_nat (length (arr_host size v)) = size.
+Proof. intro H. unfold arr_host, bz. rewrite map_length. destruct native_le; [|unfold BufModel.be_bytes; rewrite rev_length]; rewrite le_bytes_length; lia. Qed.
+Lemma flat_len (h:Z -> bytes) size vals : (forall v, Z.of_nat (length (h v)) = size) -> Z.of_nat (length (flat_map h vals)) = Z.of_nat (length vals) * size.
+Proof.
+  intro H. induction vals as [|v r IH]; [reflexivity|]. cbn [flat_map length]. rewrite app_length, Nat2Z.inj_add, IH, H.
+  rewrite Nat2Z.inj_succ. lia.
+Qed.
+
+Definition Steps (c c':ctx) (items:list bytes) : Prop :=
+  first_output c' = first_output c /\ output_count c' = output_count c + Z.of_nat (length items) /\
+  W c' = W c ++ render (first_output c) (output_count c) items /\ Fl c' = Fl c.
+Lemma Steps_one c c' b : Step c c' (Some b) -> Steps c c' [b].
+Proof. intros (A1 & A2 & A3 & A4). unfold Steps. cbn [length render]. rewrite A1, A2, A3, A4, app_nil_r. repeat split; reflexivity. Qed.
+
+(* ASCII: one item per element *)
+Lemma ascii_steps w vals : forall c,
+  Steps c (fold_left (fun c v => result_int c w v 10 false) vals c) (map (fun v => int_body w v 10 false) vals).
+Proof.
+  induction vals as [|v r IH]; intro c.
+  - unfold Steps. cbn. rewrite app_nil_r, Z.add_0_r. auto.
+  - cbn [fold_left map]. destruct (Step_result_int c w v 10 false) as (A1 & A2 & A3 & A4).
+    destruct (IH (result_int c w v 10 false)) as (B1 & B2 & B3 & B4). unfold Steps.
+    rewrite B1, B2, B3, B4, A1, A2, A3, A4. cbn [length render]. rewrite <- !app_assoc, Nat2Z.inj_succ. repeat split; try reflexivity; lia.
+Qed.
+
+(* header + one data call per piece, written with fold_left instead of a script *)
+Lemma fold_data ds : forall c d, fst (run_script (map RDATA ds) c d) = fold_left (fun c x => result_data c x) ds c.
+Proof. induction ds as [|x r IH]; intros c d; [reflexivity|]. cbn [map fold_left]. rewrite run_script_cons. cbn [step]. apply IH. Qed.
+Lemma fold_left_map {A B C} (f:A -> B -> A) (g:C -> B) l : forall a, fold_left f (map g l) a = fold_left (fun a v => f a (g v)) l a.
+Proof. induction l as [|x r IH]; intro a; [reflexivity|]. cbn [map fold_left]. apply IH. Qed.
+
+Theorem array_steps c size fmt vals : size_ok size -> Steps c (result_array c size fmt vals) (arr_items size fmt vals).
+Proof.
+  intros Hs. assert (H0 : 0 <= size) by (destruct Hs as [->|[->|[->| ->]]]; lia).
+  unfold result_array, arr_items. destruct (fmt =? 0); [apply ascii_steps|].
+  unfold payload, host, swapped.
+  destruct (fmt =? Generated.gen_native_format).
+  - (* host byte order: one block call *)
+    apply Steps_one. pose proof (Step_block c (flat_map (arr_host size) vals)) as H.
+    rewrite (flat_len (arr_host size) size vals (fun v => host_length size v H0)) in H. exact H.
+  - destruct vals as [|v0 r].
+    + (* empty array: header for 0 bytes and a zero-length data call *)
+      apply Steps_one. cbn [flat_map length]. change (Z.of_nat 0 * size) with 0. exact (Step_block c []).
+    + destruct (Z.eqb_spec size 1) as [E1|N1].
+      * (* bytes need no swapping: one data call *)
+        apply Steps_one. subst size.
+        assert (E : flat_map (fun v => arr_host 1 (arr_swapped 1 v)) (v0 :: r) = flat_map (arr_host 1) (v0 :: r)) by reflexivity. rewrite E.
+        pose proof (Step_block c (flat_map (arr_host 1) (v0 :: r))) as H.
+        rewrite (flat_len (arr_host 1) 1 (v0 :: r) (fun v => host_length 1 v ltac:(lia))) in H. exact H.
+      * (* one data call per element *)
+        apply Steps_one.
+        set (ds := map (fun v => arr_host size (arr_swapped size v)) (v0 :: r)).
+        assert (Hp : pieces_ok ds).
+        { split; [discriminate|]. unfold ds. apply Forall_forall. intros x Hx. apply in_map_iff in Hx as (v & <- & _).
+          intro E. apply (f_equal (@length N)) in E. pose proof (host_length size (arr_swapped size v) H0) as Hl. rewrite E in Hl. cbn in Hl.
+          destruct Hs as [->|[->|[->| ->]]]; lia. }
+        assert (Ht : total ds = Z.of_nat (length (v0 :: r)) * size).
+        { unfold total, ds. rewrite <- flat_map_concat_map. apply (flat_len (fun v => arr_host size (arr_swapped size v)) size (v0 :: r)). intro v. now apply host_length. }
+        destruct (stream_step ds c (fun _ => []) Hp) as (_ & H & _).
+        unfold stream_ops in H. rewrite run_script_cons in H. cbn [step] in H. rewrite fold_data in H.
+        rewrite Ht in H.
+        assert (Ef : fold_left (fun c x => result_data c x) ds (result_hdr c (Z.of_nat (length (v0 :: r)) * size)) =
+                     fold_left (fun c v => result_data c (arr_host size (arr_swapped size v))) (v0 :: r) (result_hdr c (Z.of_nat (length (v0 :: r)) * size)))
+          by (unfold ds; apply fold_left_map).
+        rewrite Ef in H.
+        assert (Ec : concat ds = flat_map (fun v => arr_host size (arr_swapped size v)) (v0 :: r)) by (unfold ds; now rewrite <- flat_map_concat_map).
+        rewrite Ec in H. exact H.
+Qed.
+Print Assumptions array_steps.
+
+
 (* scripts made of simple operations and well-formed streamed blocks *)
-Inductive atom := Op (o:op) | Stream (ds:list bytes).
-Definition atom_ok (a:atom) : Prop := match a with Op o => simple_op o = true | Stream ds => pieces_ok ds end.
-Definition flat (a:atom) : list op := match a with Op o => [o] | Stream ds => stream_ops ds end.
+Inductive atom := Op (o:op) | Stream (ds:list bytes) | Arr (size fmt:Z) (vals:list Z).
+Definition atom_ok (a:atom) : Prop := match a with Op o => simple_op o = true | Stream ds => pieces_ok ds | Arr size _ _ => size_ok size end.
+Definition flat (a:atom) : list op := match a with Op o => [o] | Stream ds => stream_ops ds | Arr size fmt vals => [RARR size fmt vals] end.
 Definition atom_items (a:atom) (c:ctx) (d:Z -> bytes) : list bytes :=
-  match a with Op o => (match op_body o c d with Some b => [b] | None => [] end) | Stream ds => [block_header (total ds) ++ concat ds] end.
+  match a with Op o => (match op_body o c d with Some b => [b] | None => [] end) | Stream ds => [block_header (total ds) ++ concat ds]
+  | Arr size fmt vals => arr_items size fmt vals end.
 Fixpoint aitems (l:list atom) (c:ctx) (d:Z -> bytes) : list bytes :=
   match l with [] => [] | a :: r => atom_items a c d ++ (let '(c', ok) := run_script (flat a) c d in if ok then aitems r c' d else []) end.
 
@@ -82,10 +166,11 @@ Lemma atom_step a c d : atom_ok a ->
   first_output c' = first_output c /\ output_count c' = output_count c + Z.of_nat (length (atom_items a c d)) /\
   W c' = W c ++ render (first_output c) (output_count c) (atom_items a c d) /\ Fl c' = Fl c.
 Proof.
-  intro Ha. destruct a as [o|ds]; cbn [flat atom_items atom_ok] in *.
+  intro Ha. destruct a as [o|ds|size fmt vals]; cbn [flat atom_items atom_ok] in *.
   - pose proof (script_framing [o] ltac:(cbn; now rewrite Ha) c d) as H. cbn zeta in H. rewrite items_single in H. exact H.
   - destruct (stream_step ds c d Ha) as (_ & (A1 & A2 & A3 & A4) & _). cbn [length render]. rewrite A1, A2, A3, A4, app_nil_r.
     repeat split; reflexivity.
+  - rewrite run_script_cons. cbn [step fst]. exact (array_steps c size fmt vals Ha).
 Qed.
 
 Theorem script_framing_streamed l : Forall atom_ok l -> forall c d,
@@ -115,3 +200,11 @@ Definition ub_ctx : ctx :=
      pd_off := 0; pd_len := 0; pd_pos := 0; cur := None; raw_off := 0; raw_len := 0; queue := []; qcap := 4; qma := false; trace := [] |}.
 Example unfinished_block_glues : W (fst (scpi_parse ub_ctx 6 desc_of)) = [35;49;53;97;98;50;13;10]%N.
 Proof. vm_compute. reflexivity. Qed.
+
+(* the array as an atom of a script (Framing3): RARR alone *)
+Example array_example :
+  let c0 := {| cmds := []; mem := []; cap := 16; first_output := true; output_count := 0; input_count := 0; cmd_error := false; arb_rem := 0;
+               pd_off := 0; pd_len := 0; pd_pos := 0; cur := None; raw_off := 0; raw_len := 0; queue := []; qcap := 2; qma := false; trace := [] |} in
+  W (result_array c0 2 1 [258; 772]) = [35;49;52;1;2;3;4]%N /\ output_count (result_array c0 2 1 [258; 772]) = 1 /\
+  W (result_array c0 2 0 [258; 772]) = [50;53;56;44;55;55;50]%N /\ output_count (result_array c0 2 0 [258; 772]) = 2.
+Proof. vm_compute. repeat split. Qed.
